@@ -148,4 +148,92 @@ example : build 0 (bytesOf "DMB") [.ident (bytesOf "SV")] (Show.simpEval exLk) t
     means (tab exLk) 0 (bytesOf "DMB") [.ident (bytesOf "SV")] = none := by
   refine ⟨rfl, by decide⟩
 
+/-! ## the whole-pipeline model (`Asm`) -/
+
+/-- C04c.f  **Pipeline, statement level (any symbol table).**  In the pipeline model, an instruction statement
+`name args` met while the constant table of the file is `tbl` (whatever `.const`/label statements built it; no
+`.import`-deferred entry) and the open region's cursor is at `A = seg.cur`: if the statement MEANS `i`
+(`means (tabOf tbl) A name args = some i`), `i` fits its field types and the encoder accepts it (`hws`), and the bytes
+fit the region, then `Asm.statement` appends exactly the little-endian bytes of `hws` at `A`, records the statement as
+placed, and reports no diagnostic. -/
+theorem stmt_placed (fs : Bytes → Option Bytes) (inc : Asm.Inc) (env : Asm.Env) (st : Asm.St) (tbl : Asm.Table)
+    (hnd : Asm.Table.NoDef tbl) (henv : env.paths ≠ []) (hl : st.locals = some tbl) (l c : Nat) (name : Bytes) (args : Args)
+    (map : Map.Segs) (seg : Seg.Active) (pending : List (Nat × Nat)) (hs : st.seg = ⟨map, some seg, pending⟩)
+    (i : Instr) (hmeans : means (tabOf tbl) seg.cur name args.toList = some i) (hwf : i.wf)
+    (hws : List Nat) (he : Codec.encode i = .ok hws)
+    (hfit : seg.buf.length + 2 * hws.length ≤ seg.maxLen) :
+    Asm.statement fs Asm.encoder inc env st ⟨l, c, .instruction name args⟩ =
+      .ok ({ st with seg := ⟨map, some { seg with buf := seg.buf ++ (Codec.toBytes hws).map (·.toUInt8) },
+                              (seg.cur, 2 * hws.length) :: pending⟩ }, .ok) ∧
+    Arm.decode hws = some i := by
+  have hb := (stmt_complete (Asm.Table.nodef_get hnd) (evalSimp_frontEval tbl) true seg.cur name args.toList i hmeans hwf hws he)
+  have hlen := (Codec.enc_len i hws he hwf).1
+  have henc := Asm.encoder_ok i hws he (by omega)
+  have hbl : ((Codec.toBytes hws).map (·.toUInt8)).length = 2 * hws.length := by simp [Asm.toBytes_length]
+  have := Asm.instr_ok fs Asm.encoder inc env st tbl henv hl l c name args map seg pending hs i hb.1 _ henc (by rw [hbl]; exact hfit)
+  rw [hbl] at this
+  exact ⟨this, hb.2⟩
+
+/-- non-vacuity of `stmt_placed`: a table defining `label`, `B label` at 0x20000200 -/
+example : Asm.Table.NoDef [(bytesOf "label", some 0x20000100)] ∧
+    means (tabOf [(bytesOf "label", some 0x20000100)]) 0x20000200 (bytesOf "B") [.ident (bytesOf "label")] = some (.b 14 (-260)) := by
+  refine ⟨?_, by decide⟩
+  intro n; simp only [Asm.Table.find]; split <;> simp
+
+/-- C04c.g  **Text level, through the whole pipeline model** (`_partial`: symbol-free statements; see the header).
+For every program text that the tokenizer and parser models read as the two statements `.addr A;` and ONE instruction
+statement `name args` (any spelling, spacing, radix, comments — whatever `Lex`/`Parse` accept; C09–C12 tie text, tokens,
+trees and positions): if the statement means `i` over the empty symbol table, `i` fits its field types, the encoder
+accepts it and the bytes fit below 2^32, then `Asm.run` succeeds, records NO diagnostic, and the image is exactly the
+encoding of `i` at `A` — which the ARMv6-M table reads as `i`. -/
+theorem run_addr_stmt_partial (fs : Bytes → Option Bytes) (main data : Bytes) (hfs : fs main = some data)
+    (els : List Element) (hp : Asm.parseFile data = .ok (els, none)) (A : Nat) (name : Bytes) (args : Args)
+    (hels : els.map (·.val) = [.directive (bytesOf "addr") (Args.ofList [.const A]), .instruction name args])
+    (i : Instr) (hmeans : means (tabOf []) A name args.toList = some i) (hwf : i.wf)
+    (hws : List Nat) (he : Codec.encode i = .ok hws) (hfit : A + 2 * hws.length ≤ 4294967296) :
+    Asm.run fs main = .done ⟨true, none, true, [], [(A, (Codec.toBytes hws).map (·.toUInt8))]⟩ ∧
+    Arm.decode hws = some i := by
+  have hlen := (Codec.enc_len i hws he hwf).1
+  have ha : A < 4294967296 := by omega
+  have hblen : ((Codec.toBytes hws).map (·.toUInt8)).length = 2 * hws.length := by simp [Asm.toBytes_length]
+  obtain ⟨e1, r1, rfl, h1, hr1⟩ := List.map_eq_cons_iff.mp hels
+  obtain ⟨e2, r2, rfl, h2, hr2⟩ := List.map_eq_cons_iff.mp hr1
+  have : r2 = [] := by simpa using hr2
+  subst this
+  obtain ⟨l1, c1, v1⟩ := e1
+  obtain ⟨l2, c2, v2⟩ := e2
+  simp only at h1 h2
+  subst h1 h2
+  let seg : Seg.Active := ⟨A, [] ++ (Codec.toBytes hws).map (·.toUInt8), Map.u32Max - A + 1⟩
+  have haddr : Asm.statement fs Asm.encoder (Asm.assembleFile fs Asm.encoder (Asm.maxDepth - 1)) ⟨[main], main⟩
+        ⟨Seg.init, [], some [], [], some [], []⟩ ⟨l1, c1, .directive (bytesOf "addr") (Args.ofList [.const A])⟩ =
+      .ok (⟨⟨[], some ⟨A, [], Map.u32Max - A + 1⟩, []⟩, [], some [], [], some [], []⟩, .ok) := by
+    have := Asm.addr_ok fs (Asm.assembleFile fs Asm.encoder (Asm.maxDepth - 1)) ⟨[main], main⟩
+      ⟨Seg.init, [], some [], [], some [], []⟩ [] (by simp) rfl rfl l1 c1 (A : Int) (by omega) (by omega)
+    simp only [Asm.statement, Show.toList_ofList, this]
+    simp
+  have hinstr := (stmt_placed fs (Asm.assembleFile fs Asm.encoder (Asm.maxDepth - 1)) ⟨[main], main⟩
+      ⟨⟨[], some ⟨A, [], Map.u32Max - A + 1⟩, []⟩, [], some [], [], some [], []⟩ []
+      (by intro n; simp [Asm.Table.find]) (by simp) rfl l2 c2 name args [] ⟨A, [], Map.u32Max - A + 1⟩ [] rfl i
+      (by rw [Show.cur_empty A _ ha]; exact hmeans) hwf hws he (by simp only [List.length_nil, Map.u32Max]; omega))
+  have key : Asm.doAssemble fs Asm.encoder (Asm.assembleFile fs Asm.encoder (Asm.maxDepth - 1)) ⟨[main], main⟩
+      [⟨l1, c1, .directive (bytesOf "addr") (Args.ofList [.const A])⟩, ⟨l2, c2, .instruction name args⟩] none
+      ⟨Seg.init, [], some [], [], some [], []⟩ =
+      .ok (⟨⟨[], some seg, [(A, ((Codec.toBytes hws).map (·.toUInt8)).length)]⟩, [], some [], [], some [], []⟩, .ok) := by
+    simp only [Asm.doAssemble]
+    rw [haddr]
+    simp only
+    rw [hinstr.1, Show.cur_empty A _ ha, hblen]
+  have hrun := Asm.run_of_statements fs main data hfs _ hp [] seg
+    [(A, ((Codec.toBytes hws).map (·.toUInt8)).length)] key
+    (by
+      intro e
+      have e' : (([] : Bytes) ++ (Codec.toBytes hws).map (·.toUInt8)) = [] := e
+      have := congrArg List.length e'
+      simp only [List.nil_append, hblen, List.length_nil] at this
+      omega)
+    (by show A + (([] : Bytes) ++ (Codec.toBytes hws).map (·.toUInt8)).length ≤ 4294967296
+        simp only [List.nil_append, hblen]; exact hfit)
+  exact ⟨by simpa [seg] using hrun, hinstr.2⟩
+
 end Trion.C04
